@@ -80,13 +80,22 @@ TTheta6(T, q, j) == FxDiv(T[q].sx[j], T[q].cnt)                                 
 TVarNum(T, q, j) == VarNum(T[q].cnt, T[q].sx[j], T[q].sxx[j])
 TVar6(T, q, j)   == FxDiv(TVarNum(T, q, j), T[q].cnt * T[q].cnt)                \* = Var6
 
+\* Large-offset features: the harness adds the exactly representable offset 2^offk to every feature (and query) and
+\* logs the means with the offset subtracted again.  Mean is shift-equivariant and variance shift-invariant, so the
+\* relations are evaluated on the un-shifted integers; Delta6 = one ulp of the offset (2^(offk-52)) in units of
+\* 10^-6 is what a backward-stable mean loses, and a stable (Welford + pairwise) variance loses a few Delta6 times
+\* the spread (measured on the fixed tree at 2^40: mean <= 0.4 ulp, variance <= 0.9 ulp of the offset).  A raw
+\* second-moment formula loses eps * offset^2 instead: 2^8 at 2^30, 2^28 at 2^40.
+Offk == IF "offk" \in DOMAIN In THEN In.offk ELSE 0
+Pow2(kk) == LET f[i \in 0..kk] == IF i = 0 THEN 1 ELSE 2 * f[i - 1] IN f[kk]
+Delta6 == IF Offk <= 20 THEN 0 ELSE IF Offk <= 32 THEN 1 ELSE Pow2(Offk - 32)
 GnbThetaOk(cls, T) ==
   \A q \in 1..Len(cls) : /\ Len(cls[q].theta) = D
-                         /\ \A j \in 1..D : Abs(cls[q].theta[j] - TTheta6(T, q, j)) <= 2
+                         /\ \A j \in 1..D : Abs(cls[q].theta[j] - TTheta6(T, q, j)) <= 2 + 2 * Delta6
 \* textbook smoothed variance: population variance + eps, eps = var_smoothing * largest feature variance of all rows
 GnbSigmaOk(cls, T, eps) ==
   \A q \in 1..Len(cls) : /\ Len(cls[q].sigma) = D
-                         /\ \A j \in 1..D : Abs(cls[q].sigma[j] - (TVar6(T, q, j) + eps)) <= 4
+                         /\ \A j \in 1..D : Abs(cls[q].sigma[j] - (TVar6(T, q, j) + eps)) <= 4 + 4 * Delta6
 
 \* the named deviation: what gaussian_nb.rs computes for batch lo..hi from the previous stored variances
 PrevOf(lab) == CHOOSE q \in 1..Len(prev) : prev[q].label = lab
@@ -113,11 +122,13 @@ GnbDevSigmaOk(cls, i) ==
 \* tables indexed like cls; judged only when every sigma >= 1/16
 GnbPredOk(cls, T, m, sg) ==
   IF \E q \in 1..Len(cls), j \in 1..D : sg[q][j] < MinSig6 THEN TRUE     \* (nearly) degenerate variance: not judged
+  ELSE IF Offk > 32 THEN TRUE          \* (q - theta) is only known to 2^(offk-52): posterior not judged beyond 2^32
   ELSE /\ Ev.predok /\ Len(Ev.pred) = Len(In.queries)
        /\ LET classes == 1..Len(cls)
               th == Eag([q \in classes |-> Eag([j \in 1..D |-> TTheta6(T, q, j)])])
           IN \A qi \in 1..Len(In.queries) :
-               LET sc == Eag([q \in classes |-> GScore(T[q].cnt, m, th[q], sg[q], In.queries[qi], D)]) IN
+               LET sc == Eag([q \in classes |-> LET gs == GScore(T[q].cnt, m, th[q], sg[q], In.queries[qi], D) IN
+                                                <<gs[1], gs[2], gs[3] + (IF Offk > 20 THEN 4 * D ELSE 0)>>]) IN
                \E q \in classes : cls[q].label = Ev.pred[qi] /\ Admissible(q, sc, classes)
 SgTextbook(cls, T, eps) == Eag([q \in 1..Len(cls) |-> Eag([j \in 1..D |-> TVar6(T, q, j) + eps])])
 SgObserved(cls)         == [q \in 1..Len(cls) |-> cls[q].sigma]
@@ -293,6 +304,9 @@ KmWhy ==
 (* FTRL *)
 Rat6(r) == DivPow(r.num, r.den, 6)
 H6 == [alpha |-> Rat6(In.hyper.alpha), beta |-> Rat6(In.hyper.beta), l1 |-> Rat6(In.hyper.l1), l2 |-> Rat6(In.hyper.l2)]
+Unit == IF "unit" \in DOMAIN In THEN In.unit ELSE 1
+F32 == "ft" \in DOMAIN In /\ In.ft = "f32"
+U32(v6) == IF F32 THEN Abs(v6) \div 4000000 + 1 ELSE 0
 
 FtShapeOk(s) == Len(s.z) = D /\ Len(s.n) = D /\ Len(s.w) = D /\ Len(s.zk) = D /\ Len(s.nk) = D /\ Len(s.wk) = D
                 /\ \A j \in 1..D : IsNum(s.z[j]) /\ IsNum(s.n[j]) /\ IsNum(s.w[j]) /\ s.n[j] >= 0
@@ -310,27 +324,36 @@ FtWeightsOk(s) ==
   \A j \in 1..D :
     IF KeyLe(s.zk[j], s.l1k) THEN FtWZero(s, j)
     ELSE FtWInRange(s.n[j], H6) =>
-           Abs(s.w[j] - FtW6(s.z[j], s.n[j], H6)) <= FtSlackW(s.z[j], s.n[j], H6, FtEs0(s.n[j], FtNZero(s, j)))
+           Abs(s.w[j] - FtW6(s.z[j], s.n[j], H6)) <= FtSlackW(s.z[j], s.n[j], H6, FtEs0(s.n[j], FtNZero(s, j))) + 4 * U32(s.w[j])
 FtSnapOk(s) == FtShapeOk(s) /\ FtKeysOk(s) /\ FtWeightsOk(s)
 
 FtBatch == In.batches[pos + 1]
+\* Unit u (a power of two, 1 if absent): feature values are integers, the harness logs z/u and n/u^2 and multiplies
+\* z0, n0, beta by u, u^2, u; with l1 = l2 = 0 the recurrence is homogeneous, so the relations below run on x/u.
+\* F32: the model is Ftrl<f32>; U32(v) >= two f32 ulps of v (in units of 10^-6) is added per rounded operation.
+FtGU(p6, ys, xs, j) == SumSeq([i \in 1..Len(xs) |-> DivPow((p6[i] - (IF ys[i] THEN S6 ELSE 0)) * xs[i][j], Unit, 0)])
+FtEgU(xs, j) == 1 + SumSeq([i \in 1..Len(xs) |-> Abs(xs[i][j]) \div Unit + 1]) + (IF F32 THEN 2 * Len(xs) ELSE 0)
 \* probabilities used for the gradient: sigmoid of x . w (previous weights), table accuracy
 FtProbOk ==
   /\ Len(Ev.p) = Len(FtBatch.x)
   /\ \A i \in 1..Len(FtBatch.x) :
-       LET arg6 == SumSeq([j \in 1..D |-> FtBatch.x[i][j] * prev.w[j]])
-           arg4 == arg6 \div 100
-       IN IsNum(Ev.p[i]) /\ Ev.p[i] >= 0 /\ Ev.p[i] <= S6 /\ Abs(Ev.p[i] \div 100 - Sigmoid(arg4)) <= 6
+       LET arg4 == SumSeq([j \in 1..D |-> (prev.w[j] \div 100) * FtBatch.x[i][j] + ((prev.w[j] % 100) * FtBatch.x[i][j]) \div 100])
+       IN IsNum(Ev.p[i]) /\ Ev.p[i] >= 0 /\ Ev.p[i] <= S6
+          /\ Abs(Ev.p[i] \div 100 - Sigmoid(arg4)) <= (IF Unit > 1 THEN 14 ELSE 6)
 FtNOk ==
-  \A j \in 1..D : LET g6 == FtG6(Ev.p, FtBatch.y, FtBatch.x, j) IN
-     Abs(Ev.n[j] - FtNNext6(prev.n[j], g6)) <= FtSlackN(g6, FtEg(FtBatch.x, j))
+  \A j \in 1..D : LET g6 == FtGU(Ev.p, FtBatch.y, FtBatch.x, j) IN
+     Abs(Ev.n[j] - FtNNext6(prev.n[j], g6)) <= FtSlackN(g6, FtEgU(FtBatch.x, j)) + 3 * U32(Ev.n[j])
 FtZOk ==
-  \A j \in 1..D : LET g6 == FtG6(Ev.p, FtBatch.y, FtBatch.x, j)
+  \A j \in 1..D : LET g6 == FtGU(Ev.p, FtBatch.y, FtBatch.x, j)
                       wz == FtWZero(prev, j)
                       nz == FtNZero(prev, j) IN
      FtZInRange(prev.n[j], g6, H6, prev.w[j], nz) =>
        Abs(Ev.z[j] - FtZNext6(prev.z[j], prev.n[j], g6, H6, prev.w[j], nz))
-         <= FtSlackZ(prev.n[j], g6, H6, prev.w[j], wz, nz, FtEg(FtBatch.x, j))
+         <= FtSlackZ(prev.n[j], g6, H6, prev.w[j], wz, nz, FtEgU(FtBatch.x, j))
+            + (IF F32 THEN U32(prev.z[j]) + 2 * U32(Ev.z[j]) + 2 * U32(g6)
+                           + 2 * U32(MulS6(FtSigma6(prev.n[j], g6, H6, nz), prev.w[j]))
+                           + 2 * U32(SqrtS6(prev.n[j] + MulS6(g6, g6))) * (Abs(prev.w[j]) \div H6.alpha + 1)
+               ELSE 0)
 
 \* the public `update` fed with the model's own predictions is the same step (bit-identical z, n)
 FtUpdateFormOk == Ev.updig = Ev.dig
@@ -339,10 +362,10 @@ FtStepOk == FtShapeOk(Ev) /\ FtProbOk /\ FtNOk /\ FtZOk /\ FtKeysOk(Ev) /\ FtWei
 \* explained iff the recurrence applied to the previous state leaves the range too (or cannot be evaluated)
 FtBigOk ==
   /\ FtProbOk
-  /\ \E j \in 1..D : LET g6 == FtG6(Ev.p, FtBatch.y, FtBatch.x, j)  nz == FtNZero(prev, j) IN
+  /\ \E j \in 1..D : LET g6 == FtGU(Ev.p, FtBatch.y, FtBatch.x, j)  nz == FtNZero(prev, j) IN
         \/ ~FtZInRange(prev.n[j], g6, H6, prev.w[j], nz)
         \/ Abs(FtZNext6(prev.z[j], prev.n[j], g6, H6, prev.w[j], nz))
-              + FtSlackZ(prev.n[j], g6, H6, prev.w[j], FtWZero(prev, j), nz, FtEg(FtBatch.x, j)) >= 1000000000
+              + FtSlackZ(prev.n[j], g6, H6, prev.w[j], FtWZero(prev, j), nz, FtEgU(FtBatch.x, j)) >= 1000000000
         \/ FtNNext6(prev.n[j], g6) >= 1000000000
 FtCut == "cut" \in DOMAIN prev
 \* the same history again (fresh parameters, same seed; seeded start through fit_with(None, ..)): bit-identical
